@@ -12,6 +12,13 @@ _JOB = {}
 
 def _work(i: int):
     check: Check = _JOB["check"]
+    from sr import symreal
+
+    for k in ("count", "checked", "agree", "other_unknown"):
+        symreal.XCHECK[k] = 0
+    symreal.XCHECK["disagree"] = []
+    for k in list(symreal.STATS):
+        symreal.STATS[k] = 0 if not isinstance(symreal.STATS[k], float) else 0.0
     sub = Check(check.pid, check.tier, check.seed)
     sub.quiet = True
     sub.replay_prefix = f"w{i:02d}_"
